@@ -99,6 +99,33 @@ def run(ctx):
                                 mlines.append(f"{cid} {cls} std (bin 1 {base} {Ul} {Ur} {T.zlist(tdim)} {ma} {mb})")
                             elif base == "muladd":
                                 mlines.append(f"{cid} {cls} std (muladd 1 {Ul} {Ur} {U3} {T.zlist(tdim)} {T.zlist(ds)} {ma} {mb} {mc})")
+    # conversions between kinds across base-unit sets (impl_from!): pairs (special kind, default-kind twin) with a non-zero dimension
+    kpairs = []
+    for a in t.quantities:
+        if a["kind"] in ("Kind", "TemperatureKind") or not any(a["dim"]):
+            continue
+        for b in t.quantities:
+            if b["kind"] == "Kind" and b["dim"] == a["dim"]:
+                kpairs += [(a, b), (b, a)]
+    if quick:
+        kpairs = ctx.rng.fork("kpairs").sample(kpairs, 6)
+    for ty in ("f64", "f32", "bigrational"):
+        cls = STYPES[ty]["cls"]
+        for (a, b) in kpairs:
+            for bsl in BASES:
+                for bsr in BASES:
+                    slot = h.slot(B.kind_from_slot(a, b, bsl, bsr, ty))
+                    Ul = T.sexp_list(t.base_unit_exprs(T.BASE_SETS[bsl]))
+                    Ur = T.sexp_list(t.base_unit_exprs(T.BASE_SETS[bsr]))
+                    rng = ctx.rng.fork(f"k:{ty}:{a['module']}:{b['module']}:{bsl}:{bsr}")
+                    for k in range(3 if quick else 12):
+                        va = (rng.choice(list(FC.special_values(ty).values())) if rng.below(5) == 0 else FC.random_value(rng, ty, None, None)) if B.is_float(ty) else VG.rat_value(rng, ty)
+                        ta = VG.val_text(ty, va)
+                        for op in ("kfrom", "kinto"):
+                            cid = f"c{len(cases)}"
+                            cases.append((cid, slot, [op, ta]))
+                            meta[cid] = (ty, f"{a['module']}->{b['module']}", bsl, bsr, op, va, tuple(a["dim"]), None, slot)
+                            mlines.append(f"{cid} {cls} std (rebase 1 {Ul} {Ur} {T.zlist(a['dim'])} {model_val(ty, ta)})")
     ctx.log(f"{len(h.slots)} slots, {len(cases)} cases; building harness")
     if not h.build():
         ctx.log(h.build_log[-3000:])
@@ -133,6 +160,34 @@ def run(ctx):
                 continue    # integer division by a right operand that truncates to zero in the left base: the raw type's own panic
             if got != want:
                 disagreements.append((cid, got, want))
+        if op in ("kfrom", "kinto"):
+            # conversion between kinds: the same physical magnitude, now in the target's base units
+            kd = vb
+            if got in (None, "PANIC", "BADOP"):
+                spec_fail.append((cid, f"conversion answered {got}"))
+                continue
+            ratio = factor(ty, bsr, kd) / factor(ty, bsl, kd)
+            if B.is_float(ty):
+                if FC.is_nan_bits(va, ty) or FC.is_inf_bits(va, ty):
+                    continue
+                fa = FC.bits_to_frac(va, ty)
+                ex = fa * ratio
+                n = nr(ty, bsl, bsr, kd)
+                u_ = Fraction(1, 2 ** FC.FMT[ty]["prec"])
+                En = (1 + u_ / (1 - u_)) ** (n + 2) - 1
+                if not all(FC.in_normal_range(x, ty, margin=8 + 2 * n) for x in (fa if fa else Fraction(1), ex if ex else Fraction(1), ratio, 1 / ratio)):
+                    continue
+                spec_checked += 1
+                if got == "nan" or FC.is_inf_bits(int(got, 16), ty):
+                    spec_fail.append((cid, f"finite in-range magnitude converted to {got}"))
+                elif abs(FC.bits_to_frac(int(got, 16), ty) - ex) > En * abs(ex) + FC.ulp_of(ex, ty):
+                    spec_fail.append((cid, f"kind conversion changed the magnitude: exact {float(ex):.17g}, impl {float(FC.bits_to_frac(int(got, 16), ty)):.17g}"))
+            else:
+                spec_checked += 1
+                n_, d_ = got.split("/")
+                if Fraction(int(n_), int(d_)) != va * ratio:
+                    spec_fail.append((cid, f"exact storage: kind conversion gave {got}, exact {va * ratio}"))
+            continue
         # ---- spec: same physical quantity as if b had first been re-expressed in the left base
         d = t.qmap[qm]["dim"]
         base = {"addas": "add", "subas": "sub", "remas": "rem"}.get(op, op)
@@ -237,7 +292,8 @@ def run(ctx):
     cov["evaluations"] = len(cases)
     cov["distinct_nontrivial"] = len(distinct)
     cov["rule"] = ("case = (storage f64/f32/BigRational/BigInt) x quantity x ordered pair of base-unit sets {SI, cgs, km-g-h-mA-mK-kmol, ft-lb-min} x "
-                   "operator {+ - % += -= %= , * / by a Time in the right base, hypot, mul_add} x value triple; non-trivial = the two base sets differ")
+                   "operator {+ - % += -= %= , * / by a Time in the right base, hypot, mul_add} x value triple; plus From/Into between a special-kind quantity and its "
+                   "default-kind twin (non-zero dimension) over every ordered pair of base sets; non-trivial = the two base sets differ")
     cov["disagreements_checked"] = len(disagreements)
     cov["spec_checked"] = spec_checked
     cov["spec_failures"] = len(spec_fail)
